@@ -4,7 +4,8 @@ EXPLANATION = ("Syntax-directed translation checked case by case: every predicat
                "symbolic values it captured in its parent, over all valuations of its atoms (calls of captured predicates, comparisons "
                "with captured chars, std/seshat predicates) and its truth table is compared with the boolean combination the AST node "
                "denotes (∧, ∧¬, ⊕, ∨, ¬ on the node's own negated flag, inclusive range bounds, literal equality, dot); nested named "
-               "items delegate to the stand-alone conversions; one predicate per registered class indexed by id. Since atoms stand for "
+               "items delegate to the stand-alone conversions; one predicate per registered class indexed by id; the class registered for a "
+               "transition is the AST node as written (C02.c). Since atoms stand for "
                "arbitrary sets, agreement on all valuations is agreement for every character. The sets denoted by std/seshat "
                "predicates are trusted.")
 RULES = {"C08.a", "C08.b", "C08.c", "C08.d", "C08.e"}
@@ -13,6 +14,10 @@ RULES = {"C08.a", "C08.b", "C08.c", "C08.d", "C08.e"}
 def check(ctx):
     classes.analyze(ctx, RULES)
     sharing.analyze(ctx, {"C08.e", "C02.f"})
+    # the predicate is built from the class that was registered: the transition of a class node must be labelled with the
+    # node as it was written (C02.c leaf rules of Nfa::try_from_ast), not with a rewritten one
+    from . import dispatch
+    dispatch.analyze(ctx, {"C02.c"})
     from . import casts
     casts.analyze(ctx, {"C17.a"})   # a class id must not wrap: the id on a transition selects the predicate
     # the property is observed on scanners obtained through build(): the cache must hand back the configuration's own compilation
